@@ -157,4 +157,59 @@ CONFIG = {
         "mem_gb": 6,
         "contradicts": "PatVerif.Props.C03",
     },
+    "C01": {
+        "rule": "Honest runs of types 1, 2, 5 (fixed and random blinds) and 3 with the request crossing the wire (Marshal → fresh object "
+                "Unmarshal): challenges of length 0,1,31,32,33,55,255,1000,65535 and random; 6/40 keys per type; batch sizes 1..8/1..64; "
+                "origin names of 1..200 bytes. Oracle columns from circl/std directly: blinded element for the given blind, VOPRF FullEvaluate, "
+                "RSASSA-PSS signature for the given salt; SHA-256 and the token layout are computed by the Lean model.",
+        "level_text": "honest_issuance: for every scheme satisfying the primitives' contract (Scheme.Laws), every key, challenge, 32-byte nonce and key id "
+                      "and all randomness, the request survives dec∘enc, the issuer evaluates, the client finalizes, the token verifies and equals "
+                      "type‖nonce‖SHA-256(challenge)‖key id‖authenticator with an Nk-byte authenticator — a Lean theorem over the modelled glue. "
+                      "The model (with Lean's own SHA-256) must reproduce the Go request and token bytes for fixed blinds, and the token for random ones.",
+        "level_note": "The VOPRF / blind-RSA / HPKE contracts are hypotheses (Scheme.Laws), not proved; type 5 is the per-element statement plus the "
+                      "type-5 request codec of C04; type 3 compares token prefix, authenticator length/validity and request size.",
+        "trusted_base": COMMON_TB + ["circl oprf/blindrsa, crypto/rsa as oracles", "PatVerif/Exec SHA-256"],
+        "assumptions": ["Scheme.Laws (primitive contract)"],
+        "contradicts": "PatVerif.Props.C01.honest_issuance",
+    },
+    "C02": {
+        "rule": "Per type, on real request states: the honest response; every bit of it (quick: strides 7/17/13/5 for types 1/2/3/5); truncations and a "
+                "one-byte extension; responses under another issuer key; responses to another request of the same client; type 5 with elements "
+                "dropped, duplicated, rotated, swapped, added, and the empty list. Types 1/2: the primitive's own finalize verdict is an oracle column "
+                "(circl called directly on an independent split) and the model predicts the returned token bytes; types 3/5: direct oracles.",
+        "level_text": "finalize_bound (a returned token carries the request's own type, nonce, digest and key id and the primitive's unblinded value), "
+                      "finalize_sound_rechecked (types 2/3: unconditional, the client re-verifies), finalize_sound_voprf (types 1/5 under the named DLEQ-soundness "
+                      "hypothesis), finalize_rejects, and the type-5 element-count check are Lean theorems for all responses. Every token any finalize call "
+                      "returns in the stream is re-verified under the pinned key and field-compared (direct oracle).",
+        "level_note": "DLEQ soundness is a hypothesis; that every bit flip is rejected is observed exhaustively per bit (thorough), not proved of the real primitives.",
+        "trusted_base": COMMON_TB + ["circl oprf client / blindrsa verifier as oracle"],
+        "assumptions": ["DLEQ soundness (finalize_sound_voprf)"],
+        "contradicts": "PatVerif.Props.C02",
+    },
+    "C10": {
+        "rule": "Honestly issued type-1 and type-5 tokens under 3/6 keys; every single-bit variant of the 146/162-byte token (quick: every 11th); "
+                "authenticators of length 0, Nk-1, Nk+1; 31-byte nonce; shifted field boundary; full (token, key) matrix incl. the other type's issuer. "
+                "Oracle column: circl FullEvaluate of the input the harness builds from the token's fields.",
+        "level_text": "verify_iff (Verify accepts iff authenticator = VOPRF_k(type‖nonce‖context‖key id as carried), for fields of any length), "
+                      "changed_auth_rejected (unconditional), changed_input_rejected (under a named PRF non-collision hypothesis) and authInput_injective "
+                      "are Lean theorems; the model recomputes the authenticator input and compares it with the harness's before deciding.",
+        "level_note": "The VOPRF is an oracle; 'changes ⇒ reject' for input fields needs PRF collision-freeness (hypothesis).",
+        "trusted_base": COMMON_TB + ["circl FullEvaluate as oracle"],
+        "assumptions": ["PRF non-collision in changed_input_rejected"],
+        "contradicts": "PatVerif.Props.C10",
+    },
+    "C11": {
+        "rule": "The three shipped Rust vectors replayed through the WithBlind entry points, through the request/response decoders and through the "
+                "repo's own batch issuer (request bytes and tokens must equal the vectors); 25/600 (key, challenge, nonce) × blinds "
+                "{random, 1, N-1, small} (type 1), {random, 1, leading zeros} with one salt (type 2), two blind vectors (type 5), each run twice.",
+        "level_text": "token_independent_of_blind (two honest runs whose randomness determines the same authenticator give byte-identical tokens), with "
+                      "the algebra behind it proved in general: r⁻¹•(k•(r•P)) = k•P in every prime-order group and (m·r^e)^d·r⁻¹ = m^d in every ZMod N "
+                      "(Mathlib). Purity of the Go entry points is what the stream checks: same arguments twice ⇒ identical bytes, and the model "
+                      "predicts request and token bytes from oracle columns that do not depend on the blind.",
+        "level_note": "Purity of Go code is observed, not proved. The Rust vectors are the independent implementation.",
+        "trusted_base": COMMON_TB + ["Mathlib v4.33.0 (ZMod, Units)", "Rust interop vectors shipped in the repository"],
+        "assumptions": ["Scheme.Laws"],
+        "extra_modules": ["PatVerif.Proofs.Group"],
+        "contradicts": "PatVerif.Props.C11",
+    },
 }
